@@ -105,6 +105,11 @@ def range_menu(freq):
         (f[n - 2], f[1]),
         (between(2, 0.4), None),
     ]
+    # limits in absolute Hz that are THE SAME numbers on every grid with these end points (the 'lin'
+    # and 'same' grids share length, first and last sample): an index range remembered from one grid
+    # must not be applied to another
+    lo_abs, hi_abs = f[0] + 0.27 * (f[-1] - f[0]), f[0] + 0.81 * (f[-1] - f[0])
+    menu += [(lo_abs, hi_abs), (lo_abs, None), (None, hi_abs)]
     return menu
 
 
@@ -320,6 +325,15 @@ def roots(tier, seed):
         for s in (["p2", "twopk", "up"], ["p4", "flat", "plateau"], ["tie", "p3", "down"]):
             out.append(dict(kind="azi", grid="lin", F=7, depth=2,
                             shapes_by_az=[s, list(reversed(s))]))
+        # objects on two different grids with equal length and end points, in both orders
+        peaked = [v for v in A.all_curves(6, (1, 2, 3)) if RP.local_maxima(v)]
+        for vals in peaked[::4]:
+            out.append(dict(kind="curve", grid="lin", grids=["lin", "same"], values=vals, depth=1))
+        for vals in peaked[1::8]:
+            out.append(dict(kind="diffuse", grid="lin", grids=["same", "lin"], values=vals, depth=1))
+        for s in (["p2", "twopk", "up"], ["p4", "p1", "plateau"]):
+            out.append(dict(kind="trad", grid="lin", grids=["lin", "same"], F=7, shapes=s, depth=1))
+            out.append(dict(kind="trad", grid="lin", grids=["same", "lin"], F=7, shapes=s, depth=1))
     else:
         for g in ("lin", "geo"):
             for vals in A.all_curves(7, (1, 2, 3)):
@@ -330,6 +344,14 @@ def roots(tier, seed):
             out.append(dict(kind="trad", depth=2, **r))
         for r in A.curve_set_roots([4], 7, A.REDUCED_SHAPES, grids=("lin", "geo")):
             out.append(dict(kind="trad", depth=3, **r))
+        peaked = [v for v in A.all_curves(7, (1, 2, 3)) if RP.local_maxima(v)]
+        for vals in peaked:
+            out.append(dict(kind="curve", grid="lin", grids=["lin", "same"], values=vals, depth=1))
+        for vals in peaked[::3]:
+            out.append(dict(kind="curve", grid="lin", grids=["same", "lin"], values=vals, depth=2))
+        for r in A.curve_set_roots([3], 7, A.REDUCED_SHAPES, grids=("lin",)):
+            out.append(dict(kind="trad", depth=1, grids=["lin", "same"], **r))
+            out.append(dict(kind="trad", depth=1, grids=["same", "lin"], **r))
         import itertools
         trip = [["p2", "twopk", "up"], ["p4", "flat", "plateau"], ["tie", "p3", "down"],
                 ["twopk_r", "q3", "p1"], ["flat", "up", "down"]]
@@ -339,6 +361,13 @@ def roots(tier, seed):
 
 
 def run_root(root, ctx, tier):
+    if root.get("grids"):
+        # the same object data on several grids, one after the other in the same process
+        for g in root["grids"]:
+            sub = dict(root, grid=g)
+            del sub["grids"]
+            run_root(sub, ctx, tier)
+        return
     sysm = System(root)
     explorer.bfs(sysm, root, root["depth"], ctx, key_prefix=f"C08:{root['kind']}",
                  check_determinism=False, touch=True)   # peaks are read after every range update
